@@ -1,0 +1,29 @@
+// Copyright 2013-2020 go-diameter authors. All rights reserved.
+// Use of this source code is governed by a BSD-style license that can be
+// found in the LICENSE file.
+
+//go:build verif
+
+package sm
+
+import "sync/atomic"
+
+// Verification hook (build tag "verif" only): internal events of the client
+// handshake and of the watchdog, for validating recorded executions against
+// the implementation-shaped specification. Off unless a test installs a hook.
+
+var verifHook atomic.Value // func(point string, obj interface{}, args ...interface{})
+
+// SetVerifHook installs (or, with nil, removes) the receiver of internal events.
+func SetVerifHook(f func(point string, obj interface{}, args ...interface{})) {
+	if f == nil {
+		f = func(string, interface{}, ...interface{}) {}
+	}
+	verifHook.Store(f)
+}
+
+func vevent(point string, obj interface{}, args ...interface{}) {
+	if f, ok := verifHook.Load().(func(string, interface{}, ...interface{})); ok {
+		f(point, obj, args...)
+	}
+}
